@@ -64,3 +64,69 @@ def keysOKFields : List (String × PyTerm) → Bool
 end
 
 end ReplayModel
+
+namespace ReplayModel
+
+/-! ### the document `json.dumps` writes, as tokens -/
+
+inductive JTok where
+  | lbrace | rbrace | lbrack | rbrack | comma | colon
+  | str (s : String)        -- a string literal (escaping is the encoder's business)
+  | atom (s : String)       -- number / true / false / null / NaN / Infinity
+  deriving Repr, DecidableEq, Inhabited
+
+/-- how a dict key is written: always as a string literal -/
+def keyText : PyTerm → String
+  | .none => "null"
+  | .bool b => if b then "true" else "false"
+  | .int i => toString i
+  | .float r => r
+  | .str s => s
+  | _ => ""
+
+mutual
+/-- the tokens of `json.dumps(t, cls=DefaultEncoder)` for a term the encoder accepts: objects
+through `__dict__`, bytes and anything else through `str(o)`, tuples as arrays -/
+def toks : PyTerm → List JTok
+  | .none => [.atom "null"]
+  | .bool b => [.atom (if b then "true" else "false")]
+  | .int i => [.atom (toString i)]
+  | .float r => [.atom r]
+  | .str s => [.str s]
+  | .bytes h => [.str h]
+  | .other r => [.str r]
+  | .list xs => .lbrack :: (toksList xs ++ [.rbrack])
+  | .tuple xs => .lbrack :: (toksList xs ++ [.rbrack])
+  | .dict kvs => .lbrace :: (toksKVs kvs ++ [.rbrace])
+  | .obj _ fs => .lbrace :: (toksFields fs ++ [.rbrace])
+def toksList : List PyTerm → List JTok
+  | [] => []
+  | x :: xs => (toks x ++ (match xs with | [] => [] | _ :: _ => [.comma])) ++ toksList xs
+def toksKVs : List (PyTerm × PyTerm) → List JTok
+  | [] => []
+  | (k, v) :: rest => (.str (keyText k) :: .colon :: toks v ++ (match rest with | [] => [] | _ :: _ => [.comma])) ++ toksKVs rest
+def toksFields : List (String × PyTerm) → List JTok
+  | [] => []
+  | (n, v) :: rest => (.str n :: .colon :: toks v ++ (match rest with | [] => [] | _ :: _ => [.comma])) ++ toksFields rest
+end
+
+mutual
+/-- the JSON grammar on tokens: exactly one value -/
+inductive JValue : List JTok → Prop where
+  | atom (s : String) : JValue [.atom s]
+  | str (s : String) : JValue [.str s]
+  | arr (es : List JTok) : JElems es → JValue (.lbrack :: (es ++ [.rbrack]))
+  | obj (ms : List JTok) : JMembers ms → JValue (.lbrace :: (ms ++ [.rbrace]))
+/-- zero or more values separated by commas -/
+inductive JElems : List JTok → Prop where
+  | nil : JElems []
+  | one (v : List JTok) : JValue v → JElems v
+  | cons (v es : List JTok) : JValue v → JElems es → es ≠ [] → JElems (v ++ .comma :: es)
+/-- zero or more `"key": value` members separated by commas -/
+inductive JMembers : List JTok → Prop where
+  | nil : JMembers []
+  | one (k : String) (v : List JTok) : JValue v → JMembers (.str k :: .colon :: v)
+  | cons (k : String) (v ms : List JTok) : JValue v → JMembers ms → ms ≠ [] → JMembers (.str k :: .colon :: (v ++ .comma :: ms))
+end
+
+end ReplayModel
